@@ -46,7 +46,8 @@ PROP(C09) __CPROVER_ensures((g_eval_n == 3 && IS_TABLE(RCV) && POS_INT && !OK) =
 PROP(C09, C10) __CPROVER_ensures((g_eval_n == 3 && (V_IS(RCV, LITERAL) || V_IS(RCV, TABCHAR)) && !V_ISNULL(RCV) && POS_INT && V_I(POS) >= 0 && (unsigned long)V_I(POS) < g_eval_size[0] && V_IS(ARG, INTEGER) && !V_ISNULL(ARG) && (V_I(ARG) < 0 || V_I(ARG) > 255)) ==> THROWN_RT(EXC_RT_OUT_OF_RANGE))
 PROP(C09) __CPROVER_ensures((g_eval_n == 3 && (V_IS(RCV, LITERAL) || V_IS(RCV, TABCHAR)) && !V_ISNULL(RCV) && POS_INT && (V_I(POS) < 0 || (unsigned long)V_I(POS) >= g_eval_size[0])) ==> THROWN_RT(EXC_RT_INDEX_RANGE_S))
 ENS_FRAME2
-PROP(C05) __CPROVER_ensures((g_eval_n >= 3 && V_LVALUE(A3)) ==> (V_SAME(O3, A3) && (FRAME_STR(O3, A3, 2))))
+/* (C17: an owned element value is copied into the table, never moved out of its variable -- the variable keeps its object) */
+PROP(C05, C17) __CPROVER_ensures((g_eval_n >= 3 && V_LVALUE(A3)) ==> (V_SAME(O3, A3) && (FRAME_STR(O3, A3, 2))))
 /* C02: the call is typed like its receiver, and a successful call returns a value of the receiver's (defined) type */
 PROP(C02) __CPROVER_ensures((OK && g_eval_n >= 1 && V_MAJOR(A1) != NO_TYPE) ==> (V_MAJOR(RET) == V_MAJOR(A1) && V_LEVEL(RET) == V_LEVEL(A1) && (V_MINOR(RET) == V_MINOR(A1) || (V_MAJOR(A1) == ROWTYPE && V_MINOR(A1) == 0 /* opaque tuple declaration */))))
 /* C05 / C14: a receiver that is a constant of the program (a string literal in the source, shared by every run and every clone of the compiled
